@@ -165,13 +165,20 @@ def check(ctx):
     body = fn["body"]["b"]
     # locals by role
     out_id = level_id = None
+    level_ty = None
+    INTS = ("i8", "i16", "i32", "i64", "i128", "isize", "u8", "u16", "u32", "u64", "u128", "usize")
     for s in body["stmts"]:
         if s.get("k") == "SLet" and s["pat"].get("k") == "Bind":
             ty = peel(s["pat"].get("ty", ""))
             if ty == "std::string::String" and out_id is None:
                 out_id = s["pat"]["id"]
-            elif ty == "i32" and level_id is None:
+            elif ty in INTS and level_id is None:
                 level_id = s["pat"]["id"]
+                level_ty = ty
+    if level_id is not None:
+        ctx.expect(level_ty.startswith("i"), "C15.4", "level-is-signed", fn["sp"],
+                   "the indentation level is a signed integer (%s): an unmatched closing brace makes it negative instead of panicking on underflow" % level_ty,
+                   "the indentation level has the unsigned type %s: `}` at depth 0 underflows (panic in debug builds, effectively endless indentation in release builds)" % level_ty)
     tail = strip(body.get("expr", {}))
     ctx.expect(out_id is not None and tail.get("id") == out_id, "C15.1", "output/returned", fn["sp"],
                "the String built by the loop is the function's result", "the result is not the output String local")
@@ -323,7 +330,10 @@ def helper(ctx, indent_fn):
     N = Norm(fn)
     t = show(N.term(fn["body"]))
     i_s = q.param_index(fn, lambda t: t == "&mut std::string::String")
-    i_l = q.param_index(fn, lambda t: t == "i32")
+    i_l = q.param_index(fn, lambda t: t in ("i8", "i16", "i32", "i64", "i128", "isize", "u8", "u16", "u32", "u64", "u128", "usize"))
+    if i_s is None or i_l is None:
+        ctx.bad("C15.6", "indent-unit", fn["sp"], "add_indentation no longer takes (&mut String, <integer level>): %s" % fn.get("inputs"))
+        return
     exp = "for(ops::Range{end:P%d,start:'0'}){{String::push_str(P%d,'    ')}}" % (i_l, i_s)
     expect_term(ctx, "C15.6", "indent-unit", fn["sp"], t, [exp, "{" + exp + "}"], "four spaces per level: `for _ in 0..level { output.push_str(\"    \") }` (empty for level <= 0)")
 
